@@ -627,6 +627,7 @@ def _run(ctx, sp, pool, clock, html_sink, C, H, I):
 
     threaded(ctx, sp, pool, clock, classes, pool_index)
     sentinel(ctx, sp)
+    perkey_witness(ctx, sp, clock, classes)
 
 
 def check_last(ctx, kn, kind, renders, m, replay, soft=False):
@@ -799,3 +800,31 @@ def sentinel(ctx, sp):
         miss.append("__exit__: set done, join thread")
     if miss:
         ctx.broke("sentinel _run_update_thread/__exit__ shape", miss)
+
+
+def perkey_witness(ctx, sp, clock, classes):
+    """The witness of C20_last_render_final_console_perkey_refuted replayed on the real console observer: a total announced
+    for a section that was already printed complete is not shown by the final rendering."""
+    clock.set([F(0)])
+    obs = make_obs(0, F(0), classes, [])
+    outs = []
+
+    def render(t):
+        clock.set([t, t])
+        with obs._lock:
+            o = obs._do_render()
+        if o is not None:
+            outs.append(o)
+    obs.increment_total(section="stale", scope=(1,), amount=1)
+    clock.set([F(1)]); obs.increment_running(section="stale", scope=(1,))
+    clock.set([F(2)]); obs.increment_completed(section="stale", scope=(1,))
+    render(F(3))
+    obs.increment_total(section="stale", scope=(2,), amount=1)
+    clock.set([F(4)]); obs.increment_running(section="stale", scope=(2,))
+    clock.set([F(5)]); obs.increment_completed(section="stale", scope=(2,))
+    render(F(6))
+    last = [o for o in outs if "stale:" in o][-1]
+    ctx.case(("perkey-witness",))
+    ctx.compared("witness of C20_last_render_final_console_perkey_refuted on the real console observer")
+    if "| 2" in last:
+        ctx.broke("witness of C20_last_render_final_console_perkey_refuted no longer reproduces (the console re-printed the section)", last)
